@@ -64,7 +64,18 @@ fn real_join(root: &Path, p: &str) -> PathBuf {
     if p.is_empty() || p.as_bytes().contains(&0) {
         return PathBuf::from(p);
     }
-    root.join(p.trim_start_matches('/'))
+    // never leave the scratch root: `..` components are dropped (the simulated FS resolves them
+    // lexically and the root is its own parent), so a call on the REAL file system can only touch
+    // what lies below `root`
+    let inside: Vec<&str> = p.split('/').filter(|c| !c.is_empty() && *c != "..").collect();
+    if inside.is_empty() {
+        return root.join(".");
+    }
+    let mut rel = inside.join("/");
+    if p.ends_with('/') {
+        rel.push('/');
+    }
+    root.join(rel)
 }
 
 macro_rules! dispatch {
